@@ -465,7 +465,7 @@ def runSeq (W : Nat) : Doc → List (List Nat) → List String × Option Doc
 
 def runLine (W : Nat) (toks : List String) : String :=
   let go (alloc : String) (hexes : List String) : String :=
-    if !(alloc == "pool" || alloc == "simple" || alloc == "track" || alloc == "guard" || alloc == "gpool") then "bad-op" else
+    if !(alloc == "pool" || alloc == "simple" || alloc == "track" || alloc == "guard" || alloc == "gpool" || alloc.startsWith "upool-") then "bad-op" else
     match hexes.mapM unhex with
     | none => "bad-op"
     | some texts =>
